@@ -127,8 +127,9 @@ func ruleNoUncancellableBlock() check.Rule {
 							fn := innermostFunc(m, b.Pkg, b.Node)
 							registeredAtAll := false
 							for _, op := range sc.SubOps {
-								if op.Method == "AddUnsubscribable" && op.Call != nil && innermostFunc(m, op.Pkg, op.Call) == fn && resNode(op.Pkg.TypesInfo, op.Arg, op.ArgExpr) == wn {
-									registeredAtAll = true
+								if op.Method == "AddUnsubscribable" && op.Call != nil && innermostFunc(m, op.Pkg, op.Call) == fn && resNode(op.Pkg.TypesInfo, op.Arg, op.ArgExpr) == wn &&
+									resNode(op.Pkg.TypesInfo, op.Recv, op.RecvExpr) != wn && resNode(op.Pkg.TypesInfo, nil, op.RecvExpr) != resNode(op.Pkg.TypesInfo, nil, op.ArgExpr) {
+									registeredAtAll = true // handed to something other than itself
 								}
 							}
 							if !registeredAtAll && strings.HasPrefix(wn, "site#") {
